@@ -63,6 +63,10 @@ impl Gen for String {
         rng.pick(&STRS).to_string()
     }
 }
+impl Gen for () {
+    const NAME: &'static str = "()";
+    fn gen(_rng: &mut Rng) {}
+}
 impl Gen for Option<u32> {
     const NAME: &'static str = "Option<u32>";
     fn gen(rng: &mut Rng) -> Option<u32> {
@@ -189,6 +193,43 @@ fn roundtrip_views(ctx: &mut Ctx, pc: usize, pr: usize, rng: &mut Rng) {
     }
 }
 
+/// Round-trip selected windows of a (large) parent through every encoder/decoder pair.
+fn roundtrip_view_windows(ctx: &mut Ctx, pc: usize, pr: usize, wins: &[crate::recv::Win], rng: &mut Rng) {
+    let data: Vec<u32> = (0..pc * pr).map(|_| rng.next() as u32).collect();
+    let mut parent = TooDee::from_vec(pc, pr, data);
+    for &(s, e) in wins {
+        for m in [false, true] {
+            let want: TooDee<u32> = TooDee::from(parent.view(s, e));
+            for enc in 0..4 {
+                let bytes = if m {
+                    let v = parent.view_mut(s, e);
+                    catches(|| encode(&v, enc))
+                } else {
+                    let v = parent.view(s, e);
+                    catches(|| encode(&v, enc))
+                };
+                let bytes = match bytes {
+                    Ok(Ok(b)) => b,
+                    o => {
+                        ctx.violation(ENC[enc], "serde:encode-failed", format!("view {:?} of {}x{}: {:?}", (s, e), pc, pr, o.map(|x| x.map(|_| ()))));
+                        continue;
+                    }
+                };
+                for dec in 0..4 {
+                    ctx.count("calls", 1);
+                    match catches(|| decode::<u32>(&bytes, dec)) {
+                        Ok(Ok(b)) if b == want && b.size() == want.size() => {
+                            ctx.nontrivial(("C18view", m, pc, pr, s, e, enc, dec));
+                            ctx.count("roundtrips_ok", 1);
+                        }
+                        o => ctx.violation(DEC[dec], "serde:view-roundtrip", format!("view(mut={}) {:?} of {}x{} via {}: {:?} expected size {:?}", m, (s, e), pc, pr, ENC[enc], o.map(|x| x.map(|b| (b.size(), b.data().len()))), want.size())),
+                    }
+                }
+            }
+        }
+    }
+}
+
 pub fn run_c18(ctx: &mut Ctx) {
     let n = nsel(ctx, 1, 2, 2, 4, 6);
     let nrand = nsel(ctx, 0, 1, 2, 40, 400);
@@ -203,6 +244,7 @@ pub fn run_c18(ctx: &mut Ctx) {
             roundtrip_owned::<Option<u32>>(ctx, c, r, &mut rng);
             roundtrip_owned::<Vec<i32>>(ctx, c, r, &mut rng);
             roundtrip_owned::<(u8, String)>(ctx, c, r, &mut rng);
+            roundtrip_owned::<()>(ctx, c, r, &mut rng);
         }
         if ctx.done() {
             return;
@@ -223,6 +265,33 @@ pub fn run_c18(ctx: &mut Ctx) {
         }
         if ctx.done() {
             return;
+        }
+    }
+    if ctx.scale == Scale::Native {
+        if ctx.case(|| "C18 views of a large parent (windows above 4096 and 65536 cells)".to_string()) {
+            let mut rng = Rng::from_parts(ctx.seed, 0, 185);
+            roundtrip_view_windows(ctx, 70, 62, &[((0, 0), (70, 62)), ((1, 1), (70, 62)), ((0, 0), (69, 61)), ((3, 2), (40, 12))], &mut rng);
+            roundtrip_view_windows(ctx, 300, 230, &[((1, 0), (300, 230)), ((7, 9), (290, 229))], &mut rng);
+        }
+        for (i, shape) in [(40usize, 33usize), (1, 200), (130, 1), (64, 64), (9, 17), (70, 60), (300, 220)].into_iter().enumerate() {
+            if ctx.case(|| format!("C18 owned big shape={}x{}", shape.0, shape.1)) {
+                let mut rng = Rng::from_parts(ctx.seed, i as u64, 183);
+                roundtrip_owned::<u32>(ctx, shape.0, shape.1, &mut rng);
+                roundtrip_owned::<String>(ctx, shape.0, shape.1, &mut rng);
+                roundtrip_owned::<Option<u32>>(ctx, shape.0, shape.1, &mut rng);
+            }
+            if ctx.done() {
+                return;
+            }
+        }
+        for (i, shape) in [(12usize, 9usize), (3, 20)].into_iter().enumerate() {
+            if ctx.case(|| format!("C18 views big parent={}x{}", shape.0, shape.1)) {
+                let mut rng = Rng::from_parts(ctx.seed, i as u64, 184);
+                roundtrip_views(ctx, shape.0, shape.1, &mut rng);
+            }
+            if ctx.done() {
+                return;
+            }
         }
     }
     for shape in shapes(nview) {
@@ -262,6 +331,15 @@ impl DocElem for String {
     }
     fn invalid(rng: &mut Rng) -> String {
         rng.pick(&["1", "null", "[]", "{}", "false"]).to_string()
+    }
+}
+impl DocElem for () {
+    const NAME: &'static str = "()";
+    fn valid(_rng: &mut Rng) -> (String, ()) {
+        ("null".into(), ())
+    }
+    fn invalid(rng: &mut Rng) -> String {
+        rng.pick(&["1", "\"a\"", "[]", "{}", "false"]).to_string()
     }
 }
 impl DocElem for Option<u8> {
@@ -648,12 +726,13 @@ pub fn run_c19(ctx: &mut Ctx) {
         let core = p.len() == 3 && p.contains(&0) && p.contains(&1) && p.contains(&2);
         let core_mul = if ctx.scale == Scale::Miri { 5 } else { 40 };
         let reps_p = if core { reps * core_mul } else if p.len() <= 3 { reps * 2 } else { reps };
-        for ty in 0..3 {
-            if ctx.case(|| format!("C19 fields={:?} elem={}", p.iter().map(|k| KEYS[*k]).collect::<Vec<_>>(), ["u32", "String", "Option<u8>"][ty])) {
+        for ty in 0..4 {
+            if ctx.case(|| format!("C19 fields={:?} elem={}", p.iter().map(|k| KEYS[*k]).collect::<Vec<_>>(), ["u32", "String", "Option<u8>", "()"][ty])) {
                 match ty {
                     0 => c19_pattern_case::<u32>(ctx, p, reps_p),
                     1 => c19_pattern_case::<String>(ctx, p, reps_p.div_ceil(2)),
-                    _ => c19_pattern_case::<Option<u8>>(ctx, p, reps_p.div_ceil(2)),
+                    2 => c19_pattern_case::<Option<u8>>(ctx, p, reps_p.div_ceil(2)),
+                    _ => c19_pattern_case::<()>(ctx, p, reps_p.div_ceil(3)),
                 }
             }
             if ctx.done() {
